@@ -66,18 +66,19 @@ def structural_oracle(kind, ob, first_expected=True, check_shapes=True):
     ms = ob["measure"]
     m0 = ms[0]
     for k, m in enumerate(ms[1:], 1):
+        at = m.get("at", f"step {k}")
         if m["ids"] != m0["ids"]:
-            return f"{kind} step {k}: node identifiers changed: {m['ids']}"
+            return f"{kind} {at}: node identifiers changed: {m['ids']}"
         if m["structure"] != m0["structure"]:
-            return f"{kind} step {k}: parent/child relations changed"
+            return f"{kind} {at}: parent/child relations changed"
         if check_shapes and m["shapes"] != ob["initial_shapes"]:
-            return f"{kind} step {k}: tensor shapes changed"
+            return f"{kind} {at}: tensor shapes changed"
         if first_expected and (m["centre"] is None or S.nid(m["centre"]) != ob["update_path"][0]):
-            return f"{kind} step {k}: recorded centre {m['centre']} is not update_path[0] = n{ob['update_path'][0]}"
+            return f"{kind} {at}: recorded centre {m['centre']} is not update_path[0] = n{ob['update_path'][0]}"
         if m["centre"] is None:
-            return f"{kind} step {k}: no orthogonality centre recorded"
+            return f"{kind} {at}: no orthogonality centre recorded"
         if m["iso_defect"] is None or m["iso_defect"] > TOL:
-            return f"{kind} step {k}: not canonical at {m['centre']} (isometry defect {m['iso_defect']})"
+            return f"{kind} {at}: not canonical at {m['centre']} (isometry defect {m['iso_defect']})"
     return None
 
 
@@ -86,11 +87,12 @@ def conservation_oracle(kind, ob, hscale, TOL=TOL):
     n0 = ms[0]["norm2"]
     e0 = complex(*ms[0]["energy"])
     for k, m in enumerate(ms[1:], 1):
+        at = m.get("at", f"step {k}")
         if abs(m["norm2"] - n0) > TOL * n0:
-            return f"{kind} step {k}: norm^2 {m['norm2']!r} vs {n0!r} (relative drift {abs(m['norm2'] - n0) / n0:.2e})"
+            return f"{kind} {at}: norm^2 {m['norm2']!r} vs {n0!r} (relative drift {abs(m['norm2'] - n0) / n0:.2e})"
         e = complex(*m["energy"])
         if abs(e - e0) > TOL * max(abs(e0), n0 * hscale):
-            return f"{kind} step {k}: energy {e!r} vs {e0!r}"
+            return f"{kind} {at}: energy {e!r} vs {e0!r}"
     return None
 
 
@@ -128,7 +130,7 @@ def _run_case(case):
         init_shapes = {i: [dict(a), list(b)] for i, (a, b) in shapes_by_neighbour(copy.deepcopy(sysd["ttns"])).items()}
         psi0 = util.dense_vec(copy.deepcopy(sysd["ttns"]), sysd["ids"])
         nsteps = case.get("nsteps", 1)
-        ob, algo = S.record_run(kind, sysd, nsteps, check_heff=False, mode=mode, after_step=measure)
+        ob, algo = S.record_run(kind, sysd, nsteps, check_heff=False, mode=mode, after_step=measure, **S.hist_kwargs(case))
         ob["initial_shapes"] = init_shapes
         # --- C06W hook: private run of the same class for the store-level tie (structure after constructor / steps) ---
         if c06w.sampled(case, 0):
@@ -145,7 +147,7 @@ def _run_case(case):
             if sub == "saturated":
                 devs = []
                 for k, m in enumerate(ob["measure"]):
-                    ref = expm_herm(sysd["H"], k * sysd["dt"]) @ psi0
+                    ref = expm_herm(sysd["H"], m.get("t", k) * sysd["dt"]) @ psi0      # dt = the REQUESTED time step
                     devs.append(float(np.max(np.abs(m["vec"] - ref))) / max(1.0, float(np.max(np.abs(psi0)))))
                 ob["exact_dev"] = devs
             if sub == "reverse":
@@ -168,6 +170,18 @@ def _run_case(case):
                         algo2.run_one_time_step()
                     v2 = util.dense_vec(copy.deepcopy(algo2.state), sysd["ids"])
                     ob["reverse_dev_fresh"] = float(np.max(np.abs(v2 - psi0))) / max(1.0, float(np.max(np.abs(psi0))))
+                else:
+                    # A sweep permutes the children orders of the state, so a NEW object built on the evolved state may sweep in
+                    # another order (seen on trees with several side branches below one node).  Then step(-H) of the new object
+                    # is the inverse of ITS OWN step(H), a different member of the scheme's family (another ordering of the
+                    # symmetric splitting), and it misses the initial state by the splitting error O(dt^3) although every bond is
+                    # at full rank.  Recorded for the evidence / replays, NOT judged: reversibility is a statement about one
+                    # integrator map, i.e. one sweep order (the same object, or a new object that sweeps in the same order).
+                    for _ in range(nsteps):
+                        algo2.run_one_time_step()
+                    v2 = util.dense_vec(copy.deepcopy(algo2.state), sysd["ids"])
+                    ob["reverse_dev_fresh_other_path"] = float(np.max(np.abs(v2 - psi0))) / max(1.0, float(np.max(np.abs(psi0))))
+                    ob["fresh_update_path"] = [S.nid(x) for x in algo2.update_path]
         return strip_vecs(ob)
     except S._Skip as s:
         return {"skip": str(s)}
@@ -183,7 +197,10 @@ class C06(Prop):
             "trees up to 7 nodes, both one-site classes, Hermitian random Hamiltonians, unnormalised random states with shuffled legs and "
             "bond dimensions 1..3 (zero-padded bonds included), modes EXPM and the default, 1..3 steps; sub-kinds: run (structure, canonical "
             "form, conservation), reverse (second order: step(H) then step(-H)), saturated (two nodes, bond = both physical dimensions, "
-            "against exp(-iH k dt) by eigendecomposition). non-trivial = >= 2 nodes; distinct by content")
+            "against exp(-iH k dt) by eigendecomposition). Configurations: final times the time step does not divide (0.66 .. 7.14 dt) for "
+            "saturated systems (by hand and through the public run() with a recorded observable; reference = the REQUESTED dt) and every "
+            "seventh tree case. Histories on one object (trees 4..9 nodes): steps / reset_to_initial_state() / steps, evaluate_operators() "
+            "between steps, run(): structure, canonical form, norm and energy after every action. non-trivial = >= 2 nodes; distinct by content")
     clauses = [
         ("F", "both traces are defined on every tree with unique ids (second order: >= 2 nodes) — the step raises no IndexError-type failure "
               "(C06_first_order_runs, C06_second_order_runs); the structural assertions of the first-order class (first node is a leaf, last node has "
@@ -220,7 +237,10 @@ class C06(Prop):
     assumptions = ["Hermitian Hamiltonian for the conservation/reversibility clauses; exponential-based modes (EXPM, default = Chebyshev)",
                    "time step chosen per case as a power of two with ||H|| dt in (1/2, 1] (times dtscale) so that the expm kernels work at nominal accuracy",
                    "reversibility of states is exact (1e-15 observed) when every bond is at its full Schmidt rank; on zero-padded / rank-deficient bonds the "
-                   "sweep is reversible only up to O(dt^3) (known finding C06-reversal-rank-deficient)"]
+                   "sweep is reversible only up to O(dt^3) (known finding C06-reversal-rank-deficient)",
+                   "reversibility is judged for ONE sweep order: the same object with H replaced by -H, and a new object on the evolved state when it "
+                   "finds the same update path; a sweep permutes children orders, so a new object may sweep in another order (several side "
+                   "branches below one node) and then misses by the splitting error O(dt^3): recorded (reverse_dev_fresh_other_path), not judged"]
 
     def generate(self, ctx, stream, budget_scale=1):
         rng = ctx.rng(stream)
@@ -249,6 +269,32 @@ class C06(Prop):
                 cases.append({"par": [None, 0], "kind": kind, "sub": "saturated", "seed": rng.randrange(10 ** 9), "herm": True,
                               "coeffs": rep % 2 == 0, "phys": [d, d], "bond": {1: d}, "mode": "expm", "nsteps": rng.choice([1, 2]),
                               "nterms": rng.choice([2, 3, 4])})
+        # CONFIGURATIONS ("all step sizes"): the final time handed to the constructor is not a multiple of the time step (or is
+        # smaller than it); the reference propagator and the durations use the time step the caller asked for.  Saturated
+        # two-node systems (exactness against exp(-iH k dt)), by hand and through the public run(), and every seventh tree case
+        cfg = []
+        for rep in range(ctx.scale(6, 60) * budget_scale):
+            d = rng.choice([2, 3])
+            for kind in ("tdvp1", "tdvp2"):
+                c = {"par": [None, 0], "kind": kind, "sub": "saturated", "seed": rng.randrange(10 ** 9), "herm": True,
+                     "coeffs": rep % 2 == 0, "phys": [d, d], "bond": {1: d}, "mode": "default" if rep % 3 == 2 else "expm",
+                     "nsteps": rng.choice([1, 2, 3]), "nterms": rng.choice([2, 3, 4]), "tratio": rng.choice(S.TRATIOS)}
+                if rep % 2 == 1:
+                    c["tratio"] = rng.choice([1.37, 2.5, 0.66])
+                    c["history"] = ["run"]
+                    c["hist"] = "run"
+                    c["ops"] = [[[rng.choice([0, 1])], rng.randrange(10 ** 6)]]
+                cfg.append(c)
+        for j, c in enumerate(cases):
+            if j % 7 == 3 and "tratio" not in c:
+                c["tratio"] = rng.choice(S.TRATIOS)
+        cases = cfg + cases          # (first, so that a violation is reported on the clause of the text it belongs to: exactness)
+        # HISTORIES: run / reset / run on one object, observables recorded between the steps (evaluate_operators, run())
+
+        def base(rng, j, par):
+            return {"sub": "run", "herm": True, "coeffs": j % 4 == 0, "ttno_shuffle": j % 2 == 0,
+                    "mode": "default" if j % 5 == 0 else "expm", "nterms": rng.choice([1, 2, 3])}
+        cases += S.gen_history_cases(rng, ctx.scale(12, 300) * budget_scale, ["tdvp1", "tdvp2"], base)
         return cases
 
     def nontrivial(self, case):
@@ -262,6 +308,9 @@ class C06(Prop):
             c["mode=" + x.get("mode", "expm")] += 1
             if x["par"][1:].count(0) == 1:
                 c["single-child-root"] += 1
+            c["history=" + x.get("hist", "steps")] += 1
+            if x.get("tratio") is not None and x["tratio"] != int(x["tratio"]):
+                c["final-time-not-multiple-of-dt"] += 1
         return dict(c)
 
     def impl(self, ctx, cases):
@@ -292,6 +341,13 @@ class C06(Prop):
         kind = case["kind"]
         if "exception" in ob:
             return f"{kind} on tree {case['par']} raised {ob['exception']}"
+        if case["sub"] == "saturated":
+            for k, dev in enumerate(ob["exact_dev"]):
+                if dev > TOL:
+                    m = ob["measure"][k]
+                    return (f"{kind} saturated two-node: state at '{m.get('at', f'step {k}')}' differs from exp(-iH {m.get('t', k)} dt) psi "
+                            f"by {dev:.2e} (requested time step dt = {ob['dt']!r}, final time = {case.get('tratio', case.get('nsteps', 1))} dt; "
+                            f"the object reports time_step_size = {ob.get('reported_dt')!r})")
         if ob["problems"]:
             return f"{kind}: {ob['problems'][0]}"
         if ob["psi0_dev"] is None or ob["psi0_dev"] > TOL:
